@@ -313,3 +313,47 @@ func harnessC17TypedLooseField() {
 	vAssert(err == nil && seen == 1, "delivered")
 	vCover("typed-loose")
 }
+
+//verif:entry property=C17 tier=both bounds="typed upcaster evA->evV2 over two stored evA events one of which carries a payload that does not decode into evA (a string where a number belongs); upcast error handler installed or not; the undecodable one reaches the callback as the original event and is reported exactly once" cover="typed-decode-failure"
+func harnessC17TypedDecodeFailure() {
+	ctx := context.Background()
+	st := NewMemoryStore()
+	badFirst := vBool()
+	payloads := []string{`{"n":7}`, `{"n":"seven"}`}
+	if badFirst {
+		payloads[0], payloads[1] = payloads[1], payloads[0]
+	}
+	for _, p := range payloads {
+		_, err := st.Append(ctx, &Event{Type: "eventbus.evA", Data: json.RawMessage(p), Timestamp: vTime("ts")})
+		vAssert(err == nil, "append-ok")
+	}
+	reports := 0
+	var opts []Option
+	opts = append(opts, WithStore(st))
+	withHandler := vBool()
+	if withHandler {
+		opts = append(opts, WithUpcastErrorHandler(func(t string, d json.RawMessage, err error) {
+			vAssert(t == "eventbus.evA" && err != nil, "error-handler-gets-failing-step")
+			reports++
+		}))
+	}
+	bus := New(opts...)
+	vAssert(RegisterUpcast(bus, func(a evA) evV2 { return evV2{N: a.N + 1, V: 2} }) == nil, "register-ok")
+	i := 0
+	err := bus.ReplayWithUpcast(ctx, OffsetOldest, func(se *StoredEvent) error {
+		bad := (i == 0) == badFirst
+		if bad {
+			vAssert(se.Type == "eventbus.evA", "failure-shows-original-event")
+		} else {
+			var v evV2
+			vAssert(se.Type == "eventbus.evV2" && json.Unmarshal(se.Data, &v) == nil && v.N == 8 && v.V == 2, "typed-json-of-f-of-decoded")
+		}
+		i++
+		return nil
+	})
+	vAssert(err == nil && i == 2, "all-events-delivered")
+	if withHandler {
+		vAssert(reports == 1, "error-handler-called-once-for-failure")
+	}
+	vCover("typed-decode-failure")
+}
